@@ -318,3 +318,332 @@ class ToMef(Contract):
 
 
 CONTRACTS = [ToMef()]
+
+
+# ---------------------------------------------------------------------------------------------
+class ToRfi(Contract):
+    target = 'FlowCal.transform.to_rfi'
+    property_ids = ('C03', 'C07')
+    config = {'call_contracts': io_specs.summaries()}
+    assumptions = ('to_rfi: the selected channels are pairwise distinct columns (a repeated channel is converted twice)',
+                   'to_rfi: resolution > 0 and gain > 0 where given (property quantifier); every selected channel of a sample '
+                   'has an amplification type on file unless overridden',
+                   'A-REAL: a1*10**((a0/r)*x) is the real a1*10^(a0*x/r); no bit-level claim')
+    max_paths = 1500
+
+    def cases(self):
+        out = []
+        for cont in ('ndarray', 'FCSData'):
+            chforms = ['none', 'int', 'intlist'] + (['str', 'strlist'] if cont == 'FCSData' else [])
+            for ch in chforms:
+                for ov in ('none', 'given', 'badlen', 'noniter'):
+                    if ch in ('int', 'str') and ov in ('badlen', 'noniter'):
+                        continue
+                    out.append({'label': '%s-ch=%s-ov=%s' % (cont, ch, ov), 'container': cont, 'ch': ch, 'ov': ov})
+        return out
+
+    def setup(self, I, case):
+        c = I.ctx
+        N, D = sym_dims(I, 'N', 'D')
+        fcs = case['container'] == 'FCSData'
+        data = sym_fcs(I, 'data', N, D, range_never_none=False) if fcs else sym_array(I, 'data', [N, D], 'float')
+        aux = {'N': N, 'D': D, 'data': data, 'fcs': fcs}
+        k, k2 = z3.Ints('pre_k pre_k2')
+        B = z3.BoolSort()
+        ch = None
+        scalar = case['ch'] in ('int', 'str')
+        if case['ch'] == 'int':
+            aux['c'] = c.fresh_int('ch')
+            ch = SV(aux['c'], 'int')
+            n = 1
+        elif case['ch'] == 'str':
+            aux['s'] = c.fresh_str('chname')
+            ch = SV(aux['s'], 'str')
+            n = 1
+        elif case['ch'] == 'none':
+            n = D
+        else:
+            n = c.fresh_int('n_ch')
+            c.assume(n >= 0)
+            ch = sym_int_list(I, 'chs', n) if case['ch'] == 'intlist' else sym_str_list(I, 'chnames', n)
+            aux['chf'] = ch.ufn
+            f = ch.ufn
+            if case['ch'] == 'intlist':
+                nrm = lambda e: z3.If(e < 0, e + D, e)
+                c.assume(z3.ForAll([k, k2], z3.Implies(z3.And(0 <= k, k < k2, k2 < n), nrm(f(k)) != nrm(f(k2)))))
+            else:
+                c.assume(z3.ForAll([k, k2], z3.Implies(z3.And(0 <= k, k < k2, k2 < n), f(k) != f(k2)),
+                                   patterns=[z3.MultiPattern(f(k), f(k2))]))
+        aux['n'] = n
+        aux['ch'] = ch
+        # overrides: per entry optional values
+        ov = {}
+        for nm, sorts in (('oat_none', B), ('oat0', R), ('oat1', R), ('oag_none', B), ('oag', R), ('or_none', B), ('ores', Z)):
+            ov[nm] = c.fresh_fn(nm, Z, sorts)
+        aux['ov'] = ov
+        c.assume(z3.ForAll([k], z3.And(ov['oag'](k) > 0, ov['ores'](k) > 0)))
+        if fcs:
+            m = data.meta
+            c.assume(z3.ForAll([k], z3.And(z3.Not(m.at_none(k)), m.ag(k) > 0, m.res(k) > 0)))
+            data.elem_facts = lambda i: z3.And(z3.Not(m.at_none(i)), m.ag(i) > 0, m.res(i) > 0)
+        kw = {'channels': ch}
+        form = case['ov']
+        if form == 'none':
+            pass
+        else:
+            def entry_at(I_, i):
+                return OptVal(ov['oat_none'](i), stamp(Seq('tuple', [SV(ov['oat0'](i), 'real'), SV(ov['oat1'](i), 'real')])))
+
+            def entry_ag(I_, i):
+                if not I_.ctx.quant_mode:
+                    I_.ctx.assume(ov['oag'](i) > 0)          # instance of the precondition at this entry
+                return OptVal(ov['oag_none'](i), SV(ov['oag'](i), 'real'))
+
+            def entry_r(I_, i):
+                if not I_.ctx.quant_mode:
+                    I_.ctx.assume(ov['ores'](i) > 0)
+                return OptVal(ov['or_none'](i), SV(ov['ores'](i), 'int'))
+            if scalar:
+                kw['amplification_type'] = entry_at(I, z3.IntVal(0))
+                kw['amplifier_gain'] = entry_ag(I, z3.IntVal(0))
+                kw['resolution'] = entry_r(I, z3.IntVal(0))
+            else:
+                nl = n
+                if form == 'badlen':
+                    nl = c.fresh_int('n_other')
+                    c.assume(z3.And(nl >= 0, nl != n))
+                    aux['which_bad'] = c.choice(3, 'badlen-which')
+                lens = [n, n, n]
+                if form == 'badlen':
+                    lens[aux['which_bad']] = nl
+                kw['amplification_type'] = stamp(SymSeq('list', lens[0], entry_at))
+                kw['amplifier_gain'] = stamp(SymSeq('list', lens[1], entry_ag))
+                kw['resolution'] = stamp(SymSeq('list', lens[2], entry_r))
+                if form == 'noniter':
+                    w = c.choice(3, 'noniter-which')
+                    kw[('amplification_type', 'amplifier_gain', 'resolution')[w]] = SV(c.fresh_real('scalar_override'), 'real')
+        aux['kw'] = kw
+        # spec functions (definitional extensions): COL(j) = column denoted by entry j, LAW(j, v) = its amplifier law
+        I.real_axioms()
+        COL = c.fresh_fn('COL', Z, Z)
+        LAW = c.fresh_fn('LAW', Z, R, R)
+        aux['COL'], aux['LAW'] = COL, LAW
+        col, colname, params, apply = self.law(I, case, aux)
+        jj = z3.Int('def_j')
+        vv = z3.Real('def_v')
+        nz = n if not isinstance(n, int) else z3.IntVal(n)
+        if case['ch'] in ('str', 'strlist'):
+            cc = z3.Int('def_c')
+            known = lambda j_: z3.Exists([cc], z3.And(0 <= cc, cc < D, data.meta.chan(cc) == colname(j_)))
+            c.assume(z3.ForAll([jj], z3.Implies(z3.And(0 <= jj, jj < nz, known(jj)),
+                                                z3.And(0 <= COL(jj), COL(jj) < D, data.meta.chan(COL(jj)) == colname(jj))), patterns=[COL(jj)]))
+        else:
+            c.assume(z3.ForAll([jj], COL(jj) == col(jj), patterns=[COL(jj)]))
+        c.assume(z3.ForAll([jj, vv], LAW(jj, vv) == apply(jj, COL(jj), vv), patterns=[LAW(jj, vv)]))
+        return [data], kw, aux
+
+    # the law of entry j applied to value v, and its column (from the property)
+    def law(self, I, case, aux):
+        D, ov, fcs = aux['D'], aux['ov'], aux['fcs']
+        given = case['ov'] in ('given',)
+        m = aux['data'].meta if fcs else None
+
+        def col(j):
+            f = case['ch']
+            if f == 'none':
+                return j
+            if f == 'int':
+                return z3.If(aux['c'] < 0, aux['c'] + D, aux['c'])
+            if f == 'intlist':
+                e = aux['chf'](j)
+                return z3.If(e < 0, e + D, e)
+            return None       # names: the column is characterised by its name (see colname)
+
+        def colname(j):
+            return aux['s'] if case['ch'] == 'str' else aux['chf'](j)
+
+        def params(j, cj):
+            """(a0, a1, gain, res, has_at, has_res) for entry j at column cj"""
+            o_at = z3.And(z3.BoolVal(given), z3.Not(ov['oat_none'](j)))
+            o_ag = z3.And(z3.BoolVal(given), z3.Not(ov['oag_none'](j)))
+            o_r = z3.And(z3.BoolVal(given), z3.Not(ov['or_none'](j)))
+            if fcs:
+                a0 = z3.If(o_at, ov['oat0'](j), m.at0(cj))
+                a1 = z3.If(o_at, ov['oat1'](j), m.at1(cj))
+                g = z3.If(o_ag, ov['oag'](j), z3.If(m.ag_none(cj), z3.RealVal(1), m.ag(cj)))
+                r = z3.If(o_r, z3.ToReal(ov['ores'](j)), z3.ToReal(m.res(cj)))
+                return a0, a1, g, r, z3.BoolVal(True), z3.BoolVal(True)
+            return ov['oat0'](j), ov['oat1'](j), z3.If(o_ag, ov['oag'](j), z3.RealVal(1)), z3.ToReal(ov['ores'](j)), o_at, o_r
+
+        def apply(j, cj, v):
+            a0, a1, g, r, has_at, has_r = params(j, cj)
+            return z3.If(a0 == 0, v / g, a1 * M.exp10((a0 / r) * v))
+        return col, colname, params, apply
+
+    def loop_specs(self):
+        contract = self
+
+        def snap(I, env):
+            dt = env['data_t']
+            return {'x': dt.fn, 'range': I.snapshot(I.np.ensure_attrs(dt)['_range']) if dt.cls == 'FCSData' else None}
+
+        def havoc(I, env, st0):
+            dt = env['data_t']
+            f = I.ctx.fresh_fn('DT', Z, Z, R)
+            dt._fn = lambda i, j, f=f: f(i, j)
+            if dt.cls == 'FCSData':
+                I.np.ensure_attrs(dt)['_range'] = fresh_range(I, 'RT', I.np.dim_val(dt.shape[1]))
+
+        def inv(I, env, k, st0):
+            aux = I.ctx.aux
+            case = I.ctx.case
+            dt, chans = env['data_t'], env['channels']
+            I.real_axioms()
+            LAW, COL = aux['LAW'], aux['COL']
+            apply = lambda j_, c_, v_: LAW(j_, v_)
+            x = st0['x']
+            N, D = I.np.dim_z(dt.shape[0]), I.np.dim_z(dt.shape[1])
+            i, c, j = z3.Ints('l_i l_c l_j')
+            cur = dt.fn
+            raw = lambda j_: seq_term(I, chans, j_)
+            col = lambda j_: z3.If(raw(j_) < 0, raw(j_) + D, raw(j_))
+            rows = z3.And(0 <= i, i < N)
+            yield ('entries-denote-their-columns', z3.ForAll([j], z3.Implies(z3.And(0 <= j, j < I.z(I.iter_len(chans), 'int')), col(j) == COL(j))))
+            # iterations that completed normally indexed a valid column (needed by "returns only for valid requests")
+            yield ('earlier-positions-valid', z3.ForAll([j], z3.Implies(z3.And(0 <= j, j < k), z3.And(-D <= raw(j), raw(j) < D))))
+            yield ('converted-columns', z3.ForAll([i, j], z3.Implies(z3.And(rows, 0 <= j, j < k),
+                                                                     cur(i, COL(j)) == apply(j, COL(j), x(i, COL(j))))))
+            untouched = lambda c_: z3.ForAll([j], z3.Implies(z3.And(0 <= j, j < k), COL(j) != c_))
+            yield ('other-columns-unchanged', z3.ForAll([i, c], z3.Implies(z3.And(rows, 0 <= c, c < D, untouched(c)),
+                                                                           cur(i, c) == x(i, c))))
+            col = COL
+            if dt.cls == 'FCSData':
+                rng = I.np.ensure_attrs(dt)['_range']
+                yield ('range-list-length', I.z(I.seq_len(rng), 'int') == D)
+                n1, l1, h1 = cell3(I, rng, c)
+                n0, l0, h0 = cell3(I, st0['range'], c)
+                yield ('other-ranges-unchanged', z3.ForAll([c], z3.Implies(z3.And(0 <= c, c < D, untouched(c)),
+                                                                           z3.And(n1 == n0, z3.Implies(z3.Not(n0), z3.And(l1 == l0, h1 == h0))))))
+                nj1, lj1, hj1 = cell3(I, rng, col(j))
+                nj0, lj0, hj0 = cell3(I, st0['range'], col(j))
+                yield ('converted-ranges', z3.ForAll([j], z3.Implies(z3.And(0 <= j, j < k),
+                                                                     z3.And(nj1 == nj0, z3.Implies(z3.Not(nj0), z3.And(lj1 == apply(j, col(j), lj0),
+                                                                                                                    hj1 == apply(j, col(j), hj0)))))))
+        return {('FlowCal.transform.to_rfi', 0): LoopSpec(inv, havoc, snap)}
+
+    def expected_outcomes(self, case):
+        if case['ov'] in ('badlen', 'noniter'):
+            return ['raise:ValueError']
+        if case['container'] == 'ndarray' and case['ov'] == 'none':
+            return []
+        return ['return']
+
+    def small_hints(self, case, aux):
+        ex = [aux[k] for k in ('c', 'n') if k in aux and not isinstance(aux[k], int)]
+        return size_hints(aux, ex)
+
+    def witness(self, model, case, aux):
+        w = data_witness(model, aux['data'], case['container'])
+        names = None
+        if w.get('meta'):
+            names = [mval(model, aux['data'].meta.chan(z3.IntVal(i))) for i in range(len(w['meta']['channels']))]
+
+        def nm(v):
+            return w['meta']['channels'][names.index(v)] if names is not None and v in names else '__unknown__'
+        n = mval(model, aux['n'])
+        if not isinstance(n, int) or n > 12:
+            return {'data': None}
+        f = case['ch']
+        ch = None if f == 'none' else mval(model, aux['c']) if f == 'int' else nm(mval(model, aux['s'])) if f == 'str' else \
+            [(nm if f == 'strlist' else (lambda x: x))(mval(model, aux['chf'](z3.IntVal(k)))) for k in range(n)]
+        ov = aux['ov']
+        form = case['ov']
+
+        def ent(k):
+            kz = z3.IntVal(k)
+            return {'at': None if mval(model, ov['oat_none'](kz)) else [mval(model, ov['oat0'](kz)), mval(model, ov['oat1'](kz))],
+                    'ag': None if mval(model, ov['oag_none'](kz)) else mval(model, ov['oag'](kz)),
+                    'r': None if mval(model, ov['or_none'](kz)) else mval(model, ov['ores'](kz))}
+        w.update({'channels': ch, 'ov_form': form, 'entries': [ent(k) for k in range(max(n, 1))] if form != 'none' else None,
+                  'which': aux.get('which_bad')})
+        return w
+
+    def check(self, I, case, aux, out):
+        P = I.ctx.prove
+        I.real_axioms()
+        N, D, data, fcs = aux['N'], aux['D'], aux['data'], aux['fcs']
+        col, colname, params, apply = self.law(I, case, aux)
+        m = data.meta if fcs else None
+        n = aux['n']
+        nz = n if not isinstance(n, int) else z3.IntVal(n)
+        kk, cc = z3.Ints('en_k en_c')
+        names_form = case['ch'] in ('str', 'strlist')
+        if names_form:
+            unknown = z3.Exists([kk], z3.And(0 <= kk, kk < nz, z3.Not(z3.Exists([cc], z3.And(0 <= cc, cc < D, m.chan(cc) == colname(kk))))))
+            bad_pos = z3.BoolVal(False)
+        else:
+            unknown = z3.BoolVal(False)
+            raw = (lambda j: j) if case['ch'] == 'none' else (lambda j: aux['c']) if case['ch'] == 'int' else (lambda j: aux['chf'](j))
+            bad_pos = z3.Exists([kk], z3.And(0 <= kk, kk < nz, z3.Not(z3.And(-D <= raw(kk), raw(kk) < D))))
+        # entries lacking an amplification type / resolution (plain arrays only)
+        j0 = I.ctx.fresh_int('entry')
+        if out.kind == 'raise':
+            if case['ov'] in ('badlen', 'noniter'):
+                P('inconsistent-argument-lengths-refused-with-ValueError', out.raised('ValueError'))
+                return
+            missing = z3.BoolVal(False)
+            if not fcs:
+                cj = I.ctx.fresh_int('colm')
+                a0, a1, g, r, has_at, has_r = params(kk, cc)
+                missing = z3.Exists([kk], z3.And(0 <= kk, kk < nz, z3.Or(z3.Not(params(kk, z3.IntVal(0))[4]),
+                                                                         z3.And(params(kk, z3.IntVal(0))[0] != 0, z3.Not(params(kk, z3.IntVal(0))[5])))))
+            P('refused-only-for-unknown-name-bad-position-or-missing-amplifier-information', z3.Or(unknown, bad_pos, missing))
+            P('refusal-class', out.raised('ValueError') or out.raised('IndexError'))
+            return
+        P('consistent-arguments', case['ov'] not in ('badlen', 'noniter'))
+        P('valid-request', z3.Not(z3.Or(unknown, bad_pos)))
+        res = out.value
+        ok = isinstance(res, NDArr) and res.ndim == 2 and res.cls == data.cls and res is not data
+        P('result-is-a-new-array-of-the-same-kind', ok)
+        if not ok:
+            return
+        P('same-shape', z3.And(I.np.dim_z(res.shape[0]) == N, I.np.dim_z(res.shape[1]) == D))
+        P('float-result', res.dtype == 'float')
+        x, r_ = data.ufn, res.fn
+        i0, c0 = I.ctx.fresh_int('ev'), I.ctx.fresh_int('colx')
+        inr = z3.And(0 <= i0, i0 < N, 0 <= c0, c0 < D)
+        entry = z3.And(0 <= j0, j0 < nz)
+        # (the spec functions COL/LAW are defined in setup from the property's vocabulary: the column carrying the
+        #  requested name or position, and a1*10^(a0*x/r) resp. x/g with the override-or-file parameters)
+        is_col = lambda j, c_: aux['COL'](j) == c_
+        apply = lambda j_, c_, v_: aux['LAW'](j_, v_)
+        selected = z3.Exists([kk], z3.And(0 <= kk, kk < nz, is_col(kk, c0)))
+        P('selected-channel-follows-its-amplifier-law', z3.Implies(z3.And(inr, entry, is_col(j0, c0)), r_(i0, c0) == apply(j0, c0, x(i0, c0))),
+          assume_after=False)
+        P('other-channels-identical', z3.Implies(z3.And(inr, z3.Not(selected)), r_(i0, c0) == x(i0, c0)), assume_after=False)
+        P('input-events-unmodified', z3.Implies(inr, data.fn(i0, c0) == x(i0, c0)), assume_after=False)
+        if fcs:
+            ra = I.np.ensure_attrs(res)
+            n1, l1, h1 = cell3(I, ra['_range'], c0)
+            none0 = m.rng_none(c0)
+            cin = z3.And(0 <= c0, c0 < D)
+            P('range-list-length', I.z(I.seq_len(ra['_range']), 'int') == D)
+            P('converted-range-is-the-law-of-the-old-limits',
+              z3.Implies(z3.And(cin, entry, is_col(j0, c0)),
+                         z3.And(n1 == none0, z3.Implies(z3.Not(none0), z3.And(l1 == apply(j0, c0, m.lo(c0)), h1 == apply(j0, c0, m.hi(c0)))))),
+              assume_after=False)
+            P('other-ranges-identical', z3.Implies(z3.And(cin, z3.Not(selected)),
+                                                   z3.And(n1 == none0, z3.Implies(z3.Not(none0), z3.And(l1 == m.lo(c0), h1 == m.hi(c0))))),
+              assume_after=False)
+            for a in FCS_ATTRS:
+                if a == '_range':
+                    continue
+                if a not in ra:
+                    P('metadata-preserved.' + a, False)
+                else:
+                    I.prove_forked('metadata-preserved.' + a, lambda a=a: struct_eq(I, ra[a], data.attrs[a]))
+            d0, l0, h0 = cell3(I, data.attrs['_range'], c0)
+            P('input-range-unmodified', z3.Implies(cin, z3.And(d0 == none0, l0 == m.lo(c0), h0 == m.hi(c0))), assume_after=False)
+
+
+CONTRACTS.append(ToRfi())
